@@ -52,6 +52,7 @@ fn fixed() -> Vec<Entry> {
     Entry("L6", "C04", "set(1); set(2) || subscriber thread calling next() until it sees 2", 3, -1, 2, l6),
     Entry("L7", "C04", "subscribe() || set(1), then set(2)", 3, -1, 2, l7),
     Entry("L8", "C04", "next_now() || set(1): value handed out and observed version are one atomic read", 3, -1, 2, l8),
+    Entry("L10", "C04", "subscribe() then get() || set(1): a subscriber that saw the old value is notified of the write", 3, -1, 2, l10),
     Entry("L9", "C04", "next_ref_now() and get() || set(1); set(2): the subscriber ends on the final value", 3, -1, 2, l9),
     ]
 }
@@ -870,4 +871,25 @@ fn generated_reader_programs() -> Vec<Entry> {
         }
     }
     v
+}
+
+fn l10() {
+    let a = SharedObservable::new(0u32);
+    let b = a.clone();
+    let t = thread::spawn(move || {
+        let s = b.subscribe();
+        let g = s.get();
+        (s, g)
+    });
+    a.set(1);
+    let (mut s, g) = t.join().unwrap();
+    let p = poll_once(s.next());
+    if g == 0 {
+        // it existed and had seen the old value before the write took effect
+        vassert(matches!(p, Poll::Ready(Some(1))), || format!("L10: the subscriber read the old value 0 through get(), then set(1) completed, but next() answers {p:?}"));
+    } else {
+        vassert(p.is_pending() || matches!(p, Poll::Ready(Some(1))), || format!("L10: get() returned {g}, next() answers {p:?}"));
+    }
+    vassert(s.get() == 1, || "L10: get() after the write is not 1".to_string());
+    outcome(format!("get={g} ready={}", p.is_ready()));
 }
